@@ -172,8 +172,25 @@ Proof.
 Qed.
 
 (** Round trip: CreateLossItvls (print l) = Ok l. *)
-Lemma createLossItvls_print l : Forall goodItvl l -> createLossItvls (printItvls l) = Ok l.
-Proof. intros H. unfold createLossItvls. rewrite lossLoop_print by (try assumption; now left). reflexivity. Qed.
+Lemma goodItvl_goodItvls l : Forall goodItvl l -> sumDur l < two63 -> goodItvls l.
+Proof.
+  intros H Hs. split; [|assumption]. clear Hs. induction H as [|i l [Hi _] _ IH]; constructor; [lia|assumption].
+Qed.
+
+Lemma sumDur_pos l : Forall (fun i => 0 < l_dur i) l -> l <> [] -> 0 < sumDur l.
+Proof.
+  intros Hp Hne. destruct l as [|i l]; [congruence|]. inversion Hp as [|? ? Hi Hl]; subst.
+  cbn [sumDur fold_right]. fold (sumDur l). pose proof (sumDur_nonneg l Hl). lia.
+Qed.
+
+Lemma createLossItvls_print l : Forall goodItvl l -> l <> [] -> sumDur l < two63 ->
+  createLossItvls (printItvls l) = Ok l.
+Proof.
+  intros H Hne Hs. unfold createLossItvls. rewrite lossLoop_print by (try assumption; now left).
+  cbn [lstate_eqb app bind]. pose proof (goodItvl_goodItvls l H Hs) as Hg.
+  rewrite cycleDurS_sum by assumption. pose proof (sumDur_pos l (proj1 Hg) Hne).
+  destruct (sumDur l <=? 0) eqn:E; [lia|reflexivity].
+Qed.
 
 (** What is accepted: every interval has a state and a non-zero duration; the list is empty
     exactly when the string contains no state letter. *)
@@ -212,10 +229,25 @@ Proof.
 Qed.
 
 Lemma createLossItvls_ok p l : createLossItvls p = Ok l ->
-  Forall okItvl l /\ (l = [] <-> Forall (fun ch => letterState ch = None) p).
+  Forall okItvl l /\ l <> [] /\ 0 < cycleDurS l /\ exists ch, In ch p /\ letterState ch <> None.
 Proof.
-  intros H. apply lossLoop_ok in H; [|constructor]. destruct H as [H1 H2]. split; [assumption|].
-  rewrite H2. tauto.
+  unfold createLossItvls. destruct (lossLoop p LUnknown 0 []) as [l'| |] eqn:EL; cbn [bind]; try discriminate.
+  destruct (cycleDurS l' <=? 0) eqn:Ec; [discriminate|]. intros H. injection H as <-.
+  apply lossLoop_ok in EL; [|constructor]. destruct EL as [H1 H2].
+  assert (Hne : l' <> []) by (intros ->; cbn in Ec; discriminate).
+  split; [assumption|]. split; [assumption|]. split; [lia|].
+  destruct (Exists_dec (fun ch => letterState ch <> None) p) as [Hex|Hnex].
+  { intros ch. destruct (letterState ch); [left; discriminate|right; congruence]. }
+  - apply Exists_exists in Hex. exact Hex.
+  - exfalso. apply Hne. apply H2. repeat split. apply Forall_forall. intros ch Hin.
+    destruct (letterState ch) eqn:E; [|reflexivity]. exfalso. apply Hnex. apply Exists_exists. exists ch. split; [assumption|congruence].
+Qed.
+
+(** An accepted pattern has a state at every second: StateAt cannot divide by zero. *)
+Lemma createLossItvls_stateAt p l s : createLossItvls p = Ok l -> exists st, stateAt l s = Ok st.
+Proof.
+  intros H. apply createLossItvls_ok in H. destruct H as (_ & _ & Hc & _).
+  unfold stateAt. destruct (cycleDurS l =? 0) eqn:E; [lia|]. eauto.
 Qed.
 
 (** * BaseURLs: baseURL i is "bu<i>/", and that element in a segment path selects pattern i *)
@@ -399,19 +431,17 @@ Qed.
 
 (** * Witnesses *)
 
-(** a pattern without a state letter is accepted as an empty interval list; StateAt divides by its
-    cycle 0.  traffic_u10, offers bu1/ for it. *)
-Lemma empty_pattern_refuted :
-  createLossItvls (bytesOf "12") = Ok [] /\ createLossItvls [] = Ok [] /\
-  stateAt [] 3000 = Panic "LossItvls.StateAt: integer divide by zero" /\
-  createAllLossItvls (bytesOf "u10,") = Ok [[{| l_dur := 10; l_state := LNo |}]; []] /\
-  mpdBaseURLs [[{| l_dur := 10; l_state := LNo |}]; []] = ["bu0/"; "bu1/"] /\
-  trafficStep [[{| l_dur := 10; l_state := LNo |}]; []] "/bu1/V300/1498.m4s" 3000000
-    = TrPanic "LossItvls.StateAt: integer divide by zero".
+(** a pattern without a state letter (no cycle duration) is rejected, also as one of several *)
+Lemma empty_pattern_rejected :
+  createLossItvls (bytesOf "12") = Err "invalid loss pattern" /\
+  createLossItvls [] = Err "invalid loss pattern" /\
+  createAllLossItvls (bytesOf "u10,") = Err "invalid loss pattern" /\
+  createAllLossItvls (bytesOf "u10,,d3") = Err "invalid loss pattern".
 Proof. repeat split; vm_compute; reflexivity. Qed.
 
-(** a duration of 19 digits wraps the int: accepted with a negative duration *)
+(** a duration of 20 digits wraps the int: accepted with another duration *)
 Lemma loss_overflow_refuted :
-  createLossItvls (bytesOf "u9223372036854775808") = Ok [{| l_dur := -9223372036854775808; l_state := LNo |}] /\
-  createLossItvls (bytesOf "u18446744073709551617") = Ok [{| l_dur := 1; l_state := LNo |}].
+  createLossItvls (bytesOf "u18446744073709551617") = Ok [{| l_dur := 1; l_state := LNo |}] /\
+  createLossItvls (bytesOf "u99999999999999999999d1")
+    = Ok [{| l_dur := 7766279631452241919; l_state := LNo |}; {| l_dur := 1; l_state := L404 |}].
 Proof. split; vm_compute; reflexivity. Qed.
